@@ -3,6 +3,9 @@
 #include "common.h"
 #include "runtime/d_array.h"
 #include "runtime/d_string.h"
+#include "runtime/d_code.h"
+#include "parser/sqf/sqf_formatter.h"
+#include <sstream>
 #include <array>
 #include <utility>
 #include <algorithm>
@@ -79,6 +82,33 @@ static void cmd_asm(const J& c)
     for (auto& d : v.logger->all) { J x = J::obj(); x.set("lvl", d.level).set("code", (long long)d.code).set("L", (long long)d.line).set("C", (long long)d.col); ds.push(x); }
     j.set("diags", ds);
     emit(j);
+    if (set.has_value() && c.boolean("roundtrip", false))
+    {
+        // (C06) str of the compiled code, compiled again; and the pretty-printer's output, compiled again
+        J r = ev("RoundTrip");
+        sqf::runtime::value code(std::make_shared<sqf::types::d_code>(*set));
+        auto printed = code.to_string_sqf();
+        r.set("str", printed);
+        // strip the outer braces
+        auto inner = printed;
+        auto a = inner.find('{'); auto b = inner.rfind('}');
+        if (a != std::string::npos && b != std::string::npos && b > a) { inner = inner.substr(a + 1, b - a - 1); }
+        v.logger->all.clear();
+        auto set2 = compile(rt, inner, "str.sqf", false);
+        r.set("str_ok", set2.has_value());
+        if (set2.has_value()) { r.set("str_code", listing(*set2)); }
+        {
+            std::ostringstream pretty;
+            ::sqf::parser::sqf::formatter fmt(rt, c.str("text"), sqf::runtime::fileio::pathinfo(std::string("pretty.sqf"), std::string()));
+            fmt.prettify(fmt.getRes(), 0, pretty);
+            r.set("pretty", pretty.str());
+            v.logger->all.clear();
+            auto set3 = compile(rt, pretty.str(), "pretty.sqf", false);
+            r.set("pretty_ok", set3.has_value());
+            if (set3.has_value()) { r.set("pretty_code", listing(*set3)); }
+        }
+        emit(r);
+    }
     if (set.has_value() && c.boolean("run", false))
     {
         v.logger->all.clear();
@@ -86,6 +116,10 @@ static void cmd_asm(const J& c)
         auto res = rt.execute(sqf::runtime::runtime::action::start);
         J r = ev("Value");
         r.set("res", result_name(res));
+        {
+            auto scope = rt.default_value_scope();
+            r.set("val", scope->contains("vd__v") ? scope->at("vd__v").to_string_sqf() : std::string("<unset>"));
+        }
         // the script's value is what the erased context left behind; capture through the work print
         r.set("nerr", (long long)std::count_if(v.logger->all.begin(), v.logger->all.end(), [](const diag& d) { return d.level <= 1; }));
         emit(r);
